@@ -67,12 +67,48 @@ INVALID = [
 ]
 
 
+def _flaky_writer():
+    """A second writer (a direct device link) that fails with DeviceError on
+    the next write when armed: the line has already reached the first writer."""
+    from gscrib.writers import BaseWriter
+    from gscrib.excepts import DeviceError
+
+    class Flaky(BaseWriter):
+        def __init__(self):
+            self.armed = False
+
+        def connect(self):
+            return self
+
+        def disconnect(self, wait=True):
+            pass
+
+        def write(self, statement):
+            if self.armed:
+                self.armed = False
+                raise DeviceError("acknowledgement timed out")
+
+        def flush(self):
+            pass
+    return Flaky()
+
+
 def run_calls(calls, cl=None, dp=5):
     cl = set() if cl is None else cl
     s = Session(dp=dp)
+    flaky = None
     model = sh.InterlockModel()
     cycles = {"tool_on": False, "power_on": False}   # completed on/off cycle per API
     for i, call in enumerate(calls):
+        if call["op"] == "writer_fails_next":
+            # the NEXT statement reaches the file but the device link fails:
+            # the call raises DeviceError, and the interlock bookkeeping must
+            # stay in step with what was written (never on the unsafe side)
+            if flaky is None:
+                flaky = _flaky_writer()
+                s.g.add_writer(flaky)
+            flaky.armed = True
+            continue
         invalid = set(call.get("_invalid", ()))
         real = {k: v for k, v in call.items() if k != "_invalid"}
         reasons = model.reasons(real) | invalid
@@ -100,7 +136,17 @@ def run_calls(calls, cl=None, dp=5):
             if real["op"] in ("tool_off", "power_off") and model.tool:
                 cycles[model.start_api] = True
             model.commit(real)
+        elif type(exc).__name__ == "DeviceError" and flaky is not None and not flaky.armed \
+                and len(s.rec.data) != b0:
+            # the write failed on the second writer after the first one had the
+            # line: not a rejection.  The model follows what was written.
+            cl.add("write_failed_after_the_line_was_written")
+            s.poll()
+            model.tool = s.machine.tool_on
+            model.coolant = s.machine.coolant is not None
         else:
+            if flaky is not None:
+                flaky.armed = False
             name = type(exc).__name__
             if name == "TypeCheckError":
                 name = "ValueError"
@@ -135,8 +181,8 @@ def strategy(n):
     from hypothesis import strategies as st
     inv = st.sampled_from(INVALID).map(lambda t: dict(t[0], _invalid=sorted(t[1])))
     from vf.hist import weighted
-    call = weighted((3, sh.call_strategy()), (4, sh.call_strategy(moves=False, extras=False)),
-                    (1, inv))
+    call = weighted((6, sh.call_strategy()), (8, sh.call_strategy(moves=False, extras=False)),
+                    (2, inv), (1, st.just({"op": "writer_fails_next"})))
     v = sh.value_strategy()
     # prefixes that build the interesting state by construction: a completed
     # on/off cycle through one tool API, then the tool started through the other
